@@ -84,6 +84,12 @@ func showBytes(b []byte, err error) string {
 		lastErrText = err.Error()
 		return "err " + errClass(err)
 	}
+	if len(b) > 0 {
+		retainedRes = append(retainedRes, retainedBytes{b: b, want: append([]byte(nil), b...), op: currentOp})
+		if len(retainedRes) > 300 {
+			retainedRes = retainedRes[len(retainedRes)-300:]
+		}
+	}
 	return "ok " + hx(b)
 }
 
@@ -217,11 +223,47 @@ func layoutSlice(b []byte) []byte {
 	return s
 }
 
+// oldGuards: argument arrays of earlier calls, kept alive and re-checked after every later call: the library must not keep
+// a caller's buffer and write to it afterwards (a pool that captures an argument, a deferred clean-up)
+var oldGuards []guarded
+
 func checkGuards() string {
-	defer func() { guards = guards[:0] }()
+	res := ""
 	for _, g := range guards {
 		if !bytes.Equal(g.arr, g.before) {
-			return " MUTATED-ARG"
+			res = " MUTATED-ARG"
+		}
+	}
+	for i, g := range oldGuards {
+		if g.arr != nil && !bytes.Equal(g.arr, g.before) {
+			res += " MUTATED-ARG-OF-AN-EARLIER-CALL"
+			oldGuards[i].arr = nil
+		}
+	}
+	if res == "" {
+		oldGuards = append(oldGuards, guards...)
+		if len(oldGuards) > 400 {
+			oldGuards = oldGuards[len(oldGuards)-400:]
+		}
+	}
+	guards = guards[:0]
+	return res
+}
+
+// retained results: byte slices the library returned stay the caller's; they are re-read after every later call
+type retainedBytes struct {
+	b, want []byte
+	op      string
+}
+
+var retainedRes []retainedBytes
+var currentOp string
+
+func checkRetained() string {
+	for i, k := range retainedRes {
+		if k.b != nil && !bytes.Equal(k.b, k.want) {
+			retainedRes[i].b = nil
+			return " RESULT-OF-AN-EARLIER-CALL-CHANGED(" + k.op + ")"
 		}
 	}
 	return ""
@@ -819,9 +861,13 @@ func runImpl(line string) (ans string) {
 		}()
 		done <- runImplRaw(line)
 	}()
+	currentOp = line
+	if len(currentOp) > 120 {
+		currentOp = currentOp[:120]
+	}
 	select {
 	case a := <-done:
-		return a
+		return a + checkRetained()
 	case <-time.After(callTimeout):
 		return "timeout"
 	}
